@@ -96,7 +96,7 @@ def run(rep, tier, seed):
             j["path"], j["spath"] = path, spath
             for key, c in (("file", file_cmd), ("cmd", cmd_cmd), ("sheb", sheb_cmd)):
                 try:
-                    p = subprocess.run(c, stdin=subprocess.DEVNULL, stdout=subprocess.PIPE, stderr=subprocess.PIPE, timeout=30)
+                    p = subprocess.run(c, stdin=subprocess.DEVNULL, stdout=subprocess.PIPE, stderr=subprocess.PIPE, timeout=180)
                     j[key] = {"out": p.stdout, "err": p.stderr, "rc": p.returncode}
                 except subprocess.TimeoutExpired:
                     j[key] = {"out": b"", "err": b"TIMEOUT", "rc": None}
